@@ -37,6 +37,10 @@ type opSpec struct {
 	Keep  int    `json:"keep,omitempty"`
 	Flag  string `json:"flag,omitempty"`
 	Val   bool   `json:"val,omitempty"`
+	// scan: directory (relative to the storage dir) used as scan root, "" = full scan
+	Root string `json:"root,omitempty"`
+	// announce: AddResources({resource i: Rel[i]} for non-empty Rel[i], index Idx, Avail, Cur, Pre)
+	Rel []string `json:"rel,omitempty"`
 }
 
 func (o opSpec) String() string {
@@ -53,6 +57,10 @@ func (o opSpec) String() string {
 		return fmt.Sprintf("index%d.AutoDownload=%v", o.Idx-1, o.Val)
 	case "purge":
 		return fmt.Sprintf("Purge(%d)", o.Keep)
+	case "scan":
+		return fmt.Sprintf("ScanStorage(%q)", o.Root)
+	case "announce":
+		return fmt.Sprintf("AddResources(%q, idx=%d, avail=%v, current=%v, pre=%v)", o.Rel, o.Idx, o.Avail, o.Cur, o.Pre)
 	}
 	return o.Op
 }
@@ -234,7 +242,63 @@ func genCase(seed uint64, no uint64) caseSpec {
 			c.Ops = append(c.Ops, opSpec{Op: "add", R: ri, Ver: vlib.Pick(r, "", "not-a-version", "1..2", "x.y.z"), Avail: false})
 		}
 	}
+	genExtras(seed, no, &c, pools)
 	return c
+}
+
+// genExtras adds, on a stream of its own (the histories above stay what they were):
+// partial rescans (ScanStorage with a sub-directory of the storage dir as root) and
+// index announcements through AddResources - the same release announced as current
+// release for several identifiers by different indexes (differing AutoDownload /
+// PreRelease), usually not on disk.
+func genExtras(seed, no uint64, c *caseSpec, pools [][]string) {
+	r := vlib.NewRand(seed, "C19/extras", no)
+	for i := range c.Ops {
+		if c.Ops[i].Op == "scan" && r.Chance(3, 5) {
+			id := vlib.Pick(r, c.Res...)
+			if parts := strings.Split(id, "/"); len(parts) > 1 {
+				c.Ops[i].Root = strings.Join(parts[:1+r.Intn(len(parts)-1)], "/")
+			}
+		}
+	}
+	if !r.Chance(1, 2) {
+		return
+	}
+	for len(c.Idx) < 2 {
+		c.Idx = append(c.Idx, idxSpec{Auto: r.Bool(), Pre: r.Chance(1, 4)})
+	}
+	if c.Idx[0].Auto == c.Idx[1].Auto && r.Chance(2, 3) {
+		c.Idx[1].Auto = !c.Idx[0].Auto
+	}
+	rel := make([]string, len(c.Res))
+	for i := range rel {
+		rel[i] = vlib.Pick(r, pools[i]...)
+	}
+	first := 0
+	for first < len(c.Ops) && c.Ops[first].Op == "add" {
+		first++
+	}
+	for k, n := 0, 2+r.Intn(5); k < n; k++ {
+		o := opSpec{Op: "announce", Idx: 1 + r.Intn(len(c.Idx)), Cur: true, Rel: make([]string, len(rel))}
+		if r.Chance(1, 6) {
+			o.Avail, o.Cur = r.Bool(), r.Bool()
+		}
+		if r.Chance(1, 5) { // a new release
+			i := r.Intn(len(rel))
+			rel[i] = vlib.Pick(r, pools[i]...)
+		}
+		for i := range rel {
+			if r.Chance(4, 5) {
+				o.Rel[i] = rel[i]
+			}
+		}
+		o.Pre = c.Idx[o.Idx-1].Pre
+		at := first + r.Intn(len(c.Ops)-first+1)
+		c.Ops = append(c.Ops[:at], append([]opSpec{o}, c.Ops[at:]...)...)
+		if r.Chance(1, 2) { // usually followed by a selection, as an update check does
+			c.Ops = append(c.Ops[:at+1], append([]opSpec{{Op: "select"}}, c.Ops[at+1:]...)...)
+		}
+	}
 }
 
 // ---------------------------------------------------------------------------------
